@@ -167,7 +167,7 @@ CHECKS = {
         },
         "assumptions": ["which blocked parser worker receives a line is the Go runtime's choice: replay is 'same verdict for the same scenario', the oracle is schedule-insensitive",
                         "conflicting duplicate subnets (ill-formed, order dependent) are not generated"],
-        "required_probes": {"quick": ["multi_value_keys"], "thorough": ["multi_value_keys", "free_running_big_file"]},
+        "required_probes": {"quick": ["multi_value_keys", "free_running_big_file"], "thorough": ["multi_value_keys", "free_running_big_file"]},
     },
     "C08": {
         "test": "TestC08",
